@@ -461,6 +461,9 @@ def kind_cases(draw, tier):
 RULE_ROUND8 = ' One generated forest in 20 (60 in the thorough tier) is a BIG one (gen.big_specs: a child list of 11..300 nodes, that many clones of one data object, more than 256 nodes), with node references aimed at notable positions of the long child lists. Part data-kinds: the same two forests built with plain dicts (calc_data_id callback), objects, frozen dataclasses and tuples; for clone-free forests the annotated result must equal the string version label for label (added/moved-here and removed/moved-away merged), with clones: no exception and a well-formed result.'
 RULE = RULE + RULE_ROUND8
 
+RULE_ROUND9 = ' All structural and index invariants are evaluated on the result tree.'
+RULE = RULE + RULE_ROUND9
+
 PARTS = [
     Part("pairs", run, strategy=lambda tier: hyp_cases(tier), n={"quick": 3000, "thorough": 400000}),
     Part("data-kinds", run_data_kinds, strategy=lambda tier: kind_cases(tier), n={"quick": 600, "thorough": 60000}),
